@@ -4,4 +4,4 @@ Extraction Language OCaml.
 Extraction "model.ml"
   xb_zadd xb_zmul xb_zdiv xb_zmod xb_zopp xb_zltb xb_nadd xb_nmul xb_ndiv xb_nmod xb_z_of_n xb_n_of_z xb_n_of_nat xb_nat_of_n xb_keep
   set_deadline read_eff read_return write_eff write_return cls_eqb Deadline.run
-  accept_read predict_read accept_write predict_write accept_close predict_close read_timeout_us Lifecycle.run Lifecycle.init.
+  accept_read predict_read accept_write predict_write accept_close predict_close Lifecycle.run Lifecycle.init.
